@@ -16,6 +16,8 @@ def verify_case(repo, qualname, case_index, timeout_ms=10000, want_models=True, 
     out = dict(fn=qualname, case=case.name, status='ok', results=[], notes=[], assumed=[],
                stats={}, secs=0.0)
     try:
+        from .natives import ModuleInfo as _MI0
+        _MI0._cache.clear()          # so that `deps` lists exactly the modules this verification read
         mi, fn = find_function(repo, qualname)
         ex = Executor(mi, fn, qualname, case, NATIVES)
         obls = ex.run()
@@ -84,6 +86,10 @@ def verify_case(repo, qualname, case_index, timeout_ms=10000, want_models=True, 
                 r2.detail = ('retried with %ds budget. ' % (timeout_ms * 6 // 1000)) + (r2.detail or '')
                 r = r2
             out['results'].append(r.to_dict())
+        import hashlib as _hl
+        from .natives import ModuleInfo as _MI
+        out['deps'] = dict((mi_.path, _hl.sha256(mi_.src.encode()).hexdigest())
+                           for (rp_, mn_), mi_ in _MI._cache.items() if rp_ == repo)
         out['notes'] = ex.notes
         out['assumed'] = sorted(set(ex.assumed_log))
         out['stats'] = dict(ex.stats, obligations=len(obls))
